@@ -105,7 +105,7 @@ def rules_C05(ctx):
 
 
 def rules_C09(ctx):
-    return total_for("C09", ctx) + [flag.flag(ctx, "all", {"src/base_convert.rs"}), table.alphabets(ctx),
+    return total_for("C09", ctx) + overflow_for("C09", ctx) + [flag.flag(ctx, "all", {"src/base_convert.rs"}), table.alphabets(ctx),
                                     table.prefixes(ctx), canon_for(ctx, {"src/base_convert.rs", "src/string.rs"}),
                                     flag.feasible_failure(ctx, "all", {"crate::base_convert::<impl crate::Uint<BITS, LIMBS>>::from_base_be",
                                                                        "crate::base_convert::<impl crate::Uint<BITS, LIMBS>>::from_base_le"})]
@@ -140,12 +140,16 @@ def rules_C16(ctx):
     return total_for("C16", ctx) + [codec.run(ctx), structural.wf(ctx, marker_generic=False)]
 
 
+def overflow_for(pid, ctx):
+    return [total_rule.run_overflow(ctx, entries.TOTAL_ENTRIES[pid], TOTAL_FLOORS[pid], label=pid)]
+
+
 def rules_C17(ctx):
-    return total_for("C17", ctx) + [guard.c17(ctx)]
+    return total_for("C17", ctx) + overflow_for("C17", ctx) + [guard.c17(ctx)]
 
 
 def rules_C08(ctx):
-    return total_for("C08", ctx) + [canon_for(ctx, {"src/bytes.rs"}), guard.buffers(ctx),
+    return total_for("C08", ctx) + overflow_for("C08", ctx) + [canon_for(ctx, {"src/bytes.rs"}), guard.buffers(ctx),
                                     flag.feasible_failure(ctx, "all", {"crate::bytes::<impl crate::Uint<BITS, LIMBS>>::try_from_be_slice",
                                                                        "crate::bytes::<impl crate::Uint<BITS, LIMBS>>::try_from_le_slice"})]
 
